@@ -16,7 +16,7 @@
 import KiraModel.Exec.Proto
 import KiraModel.Model.Decoder
 
-namespace K.Exec
+namespace K.Exec.Wav
 open K K.Proto K.Wav K.Dec
 
 def fdFloat : FloatDec Float :=
@@ -169,4 +169,4 @@ def wavStep (st : WavState) (tok : List String) : Option (WavState × String) :=
   | "asset.mut" :: _ => pure (st, "asset ok")
   | _ => none
 
-end K.Exec
+end K.Exec.Wav
